@@ -84,7 +84,7 @@ def run(prog, chk):
                 avoid = [n for n, l, r in stores]
                 for e in g.nodes:
                     if e.kind == 'edge' and _range_test(e.e, qt, last):
-                        rr = g.reachable([e])
+                        rr = g.reachable([e], avoid=[node])     # within the same iteration / activation
                         if not any(a.id in rr for a in avoid):
                             avoid.append(e)
                 reach_ok = g.must_follow(node, avoid)
@@ -95,7 +95,7 @@ def run(prog, chk):
             rets = [n for n in g.nodes if n.kind == 'return' and node.id in g.reachable([n], forward=False) and g.dominates(node, n)]
             rets = [n for n in rets if SX.is_node(n.e.get('e')) and any(x['k'] == 'ref' and x.get('id') == bid for x in SX.walk(n.e['e']))]
             if f.ret.endswith('Value') and _expr_form(g, node):
-                okr = bool(rets) and all('Type::Bit' in SX.show(n.e['e']) for n in rets)
+                okr = bool(rets) and all(any(x['k'] == 'ref' and x.get('kind') == 'enum' and x['name'].endswith('Type::Bit') for x in SX.walk(n.e['e'])) for n in rets)
                 chk.ob('R02.5', f, node.ln, okr, 'measure expression returns a Bit value holding the same bit', key='returns:' + _site(g, node, qt))
     chk.count('evaluator measure sites', nsite, 3)
 
@@ -144,6 +144,7 @@ def analyse_measure_like(prog, m, amp, q, sp, KS, KP):
     dist_id = r_id = res_id = None
     res_decl = None
     norm_decl = None
+    late_doubles = []     # doubles defined after the draw: evaluated per outcome case
     for s in stmts:
         if s['k'] == 'decls':
             for v in s['d']:
@@ -165,9 +166,9 @@ def analyse_measure_like(prog, m, amp, q, sp, KS, KP):
                         a = init['args'][1:]
                         info['draw_ok'] = len(a) == 1 and SX.is_node(SX.strip(a[0])) and SX.strip(a[0]).get('global') and 'mersenne_twister' in SX.strip(a[0]).get('t', '')
                         info['draw_txt'] = SX.show(init)
-                    elif SX.is_node(init) and init['k'] == 'call' and SX.short(init.get('callee', '')) == 'sqrt':
-                        norm_decl = v
-                elif 'uniform_real_distribution<double>' in t:
+                    elif SX.is_node(init) and r_id is not None:
+                        late_doubles.append(v)
+                elif 'uniform_real_distribution<double>' in t or 'uniform_real_distribution<>' in t:
                     dist_id = v['id']
                     a = SX.real_args(SX.strip(v['init'])) if SX.is_node(v.get('init')) else []
                     vals = [x.get('v') for x in a if SX.is_node(x)]
@@ -228,9 +229,9 @@ def analyse_measure_like(prog, m, amp, q, sp, KS, KP):
         cases = {res_id: res} if res_id else {}
         it = KP.PairIter(amp, l2[0]['id'], bit_ids, scal, cases)
         try:
-            if norm_decl is not None:
-                it.b = 0
-                it.scalars[norm_decl['id']] = it.amp_expr(norm_decl['init'])
+            it.b = 0
+            for v in late_doubles:
+                it.scalars[v['id']] = it.amp_expr(v['init'])
             for b in (0, 1):
                 cells, acc = it.run(l2[1], b)
                 info['collapse'][(b, res)] = cells
